@@ -1071,6 +1071,7 @@ def discarded_results(ctx, rule, prefixes, what):
     single_step_cursors(ctx, rule, fns, what)
     swapped_arguments(ctx, rule, fns, what)
     keys_only_memo_keys(ctx, rule, fns, what)
+    branch_selected_memo_values(ctx, rule, fns, what)
     for site_, names_, src_ in late_bound_in(fns, with_yield=False):
         ctx.violation(rule, what, site_, 'the deferred step `%s` reads the loop variable%s %s at call time, i.e. after the loop has moved on: every collected callable works on the last element'
                       % (src_[:70], 's' if len(names_) > 1 else '', ', '.join(names_)), key='%s|late-binding|%s' % (rule, site_.split(':')[0]))
@@ -1454,7 +1455,105 @@ def keys_only_memo_keys(ctx, rule, fns, what):
             ctx.violation(rule, what, fn.site(asg), 'READ!: %s reuses a remembered answer when `%s`, but `%s = %s` runs over the KEYS of the mapping %s only, while the answer is computed from its values '
                           '(%s.values()/.items()/[...] is read): the same keys with other values are handed the earlier answer' % (fn.qn, ast.unparse(used)[:60], K, ast.unparse(asg.value)[:60], bare, bare),
                           key='%s|keys-only-key|%s' % (rule, fn.qn))
-    ctx.holds(rule, what + ' (no remembered answer reused under a key that runs over the keys of a mapping whose values the answer depends on; %d such keys looked at)' % n, None)
+    # the same for a key that takes only the LENGTH of a collection handed in (a parameter, a local - not the object's own append-only log), while the remembered answer
+    # is built from its elements: another collection of the same length is handed the earlier answer
+    for fn in fns:
+        if not isinstance(fn.node, ast.FunctionDef) or fn.cls is None or not fn.node.args.args or fn.node.args.args[0].arg != 'self':
+            continue
+        for asg in ast.walk(fn.node):
+            if not (isinstance(asg, ast.Assign) and len(asg.targets) == 1 and isinstance(asg.targets[0], ast.Name)):
+                continue
+            K = asg.targets[0].id
+            lens = [c_.args[0].id for c_ in ast.walk(asg.value) if isinstance(c_, ast.Call) and isinstance(c_.func, ast.Name) and c_.func.id == 'len' and len(c_.args) == 1 and isinstance(c_.args[0], ast.Name)]
+            if not lens or not isinstance(asg.value, ast.Tuple):
+                continue
+            inside_len = {id(c_.args[0]) for c_ in ast.walk(asg.value) if isinstance(c_, ast.Call) and isinstance(c_.func, ast.Name) and c_.func.id == 'len' and c_.args}
+            used = None
+            for c_ in ast.walk(fn.node):
+                if isinstance(c_, ast.Compare) and len(c_.ops) == 1 and isinstance(c_.ops[0], (ast.Eq, ast.NotEq, ast.In, ast.NotIn)):
+                    sides = [c_.left, c_.comparators[0]]
+                    if any(isinstance(x_, ast.Name) and x_.id == K for x_ in sides) and \
+                            any(isinstance(x_, ast.Attribute) and isinstance(x_.value, ast.Name) and x_.value.id == 'self' for x_ in sides):
+                        used = c_
+            if used is None:
+                continue
+            for X in lens:
+                if any(isinstance(x_, ast.Name) and x_.id == X and id(x_) not in inside_len for x_ in ast.walk(asg.value)):
+                    continue
+                n += 1
+                kept = [a_ for a_ in ast.walk(fn.node) if isinstance(a_, ast.Assign) and a_ is not asg and
+                        any(isinstance(t_, ast.Attribute) and isinstance(t_.value, ast.Name) and t_.value.id == 'self' for t_ in a_.targets) and
+                        any(isinstance(x_, ast.Name) and x_.id == X and not (isinstance(pm_.get(x_), ast.Call) and getattr(pm_.get(x_).func, 'id', '') == 'len')
+                            for pm_ in [parent_map(a_.value)] for x_ in ast.walk(a_.value))]
+                if kept:
+                    ctx.violation(rule, what, fn.site(asg), 'READ!: %s reuses a remembered answer when `%s`, but `%s = %s` takes only the length of %s, while what is remembered is built from its '
+                                  'elements (`%s`): another %s of the same length is handed the earlier answer' % (fn.qn, ast.unparse(used)[:60], K, ast.unparse(asg.value)[:70], X,
+                                                                                                                     ast.unparse(kept[0])[:70], X), key='%s|length-only-key|%s' % (rule, fn.qn))
+    ctx.holds(rule, what + ' (no remembered answer reused under a key that runs over the keys of a mapping, or takes only the length of a collection, whose content the answer depends on; %d such keys looked at)' % n, None)
+
+
+def branch_selected_memo_values(ctx, rule, fns, what):
+    """T[key] = v; ... return T[key]: where v is CHOSEN by a test on something the key does not carry (`price = bid_ask[1] if order.direction > 0 else bid_ask[0]`, filed under
+    order.asset), the entry filed for one answer of the test is handed out for the other."""
+    n = 0
+    for fn in fns:
+        if not isinstance(fn.node, ast.FunctionDef):
+            continue
+        params = {a_.arg for a_ in fn.node.args.args} - {'self', 'cls'}
+        if not params:
+            continue
+        local_asg = {}
+        for a_ in ast.walk(fn.node):
+            if isinstance(a_, ast.Assign) and len(a_.targets) == 1 and isinstance(a_.targets[0], ast.Name):
+                local_asg.setdefault(a_.targets[0].id, []).append(a_)
+        for st in ast.walk(fn.node):
+            if not (isinstance(st, ast.Assign) and len(st.targets) == 1 and isinstance(st.targets[0], ast.Subscript)):
+                continue
+            tbl = st.targets[0].value
+            if not (isinstance(tbl, ast.Name) or (isinstance(tbl, ast.Attribute) and isinstance(tbl.value, ast.Name) and tbl.value.id == 'self')):
+                continue
+            ttxt = ast.unparse(tbl)
+            key = st.targets[0].slice
+            ktxt = ast.unparse(key)
+            if isinstance(key, ast.Name) and len(local_asg.get(key.id, [])) == 1:
+                ktxt = ast.unparse(local_asg[key.id][0].value)
+            # the same table is answered from under the same key in this function
+            hit = any((isinstance(r_, ast.Subscript) and isinstance(r_.ctx, ast.Load) and ast.unparse(r_.value) == ttxt and ast.unparse(r_.slice) == ast.unparse(key)) or
+                      (isinstance(r_, ast.Compare) and len(r_.ops) == 1 and isinstance(r_.ops[0], (ast.In, ast.NotIn)) and ast.unparse(r_.comparators[0]) == ttxt and ast.unparse(r_.left) == ast.unparse(key))
+                      for r_ in ast.walk(fn.node))
+            if not hit:
+                continue
+            n += 1
+            tests = []
+            if isinstance(st.value, ast.IfExp):
+                tests.append(st.value.test)
+            elif isinstance(st.value, ast.Name):
+                v = st.value.id
+                for a_ in local_asg.get(v, []):
+                    if isinstance(a_.value, ast.IfExp):
+                        tests.append(a_.value.test)
+                for i_ in ast.walk(fn.node):
+                    if isinstance(i_, ast.If) and i_.orelse and any(a_ in i_.body for a_ in local_asg.get(v, [])) and any(a_ in i_.orelse for a_ in local_asg.get(v, [])):
+                        tests.append(i_.test)
+            for t_ in tests:
+                atoms = []
+                for x_ in ast.walk(t_):
+                    if isinstance(x_, ast.Attribute):
+                        b_ = x_
+                        while isinstance(b_, ast.Attribute):
+                            b_ = b_.value
+                        if isinstance(b_, ast.Name) and b_.id in params:
+                            atoms.append(ast.unparse(x_))
+                    elif isinstance(x_, ast.Name) and x_.id in params:
+                        atoms.append(x_.id)
+                atoms = [a_ for a_ in atoms if not any(a_ != o_ and o_.startswith(a_ + '.') for o_ in atoms)]
+                left = [a_ for a_ in atoms if a_ not in ktxt]
+                if left:
+                    ctx.violation(rule, what, fn.site(st), 'READ!: %s files `%s` under the key `%s` and answers later questions from there, but the value filed was chosen by the test `%s`, '
+                                  'which reads %s - not part of the key: an entry filed for one outcome of the test is handed out for the other'
+                                  % (fn.qn, ast.unparse(st.value)[:50], ktxt[:50], ast.unparse(t_)[:50], ', '.join(sorted(set(left)))), key='%s|branch-selected-entry|%s' % (rule, fn.qn))
+                    break
+    ctx.holds(rule, what + ' (no table entry chosen by a test on something its key leaves out; %d filed-and-answered tables looked at)' % n, None)
 
 
 def unread_atoms(M, got, expected=None, fn=None):
